@@ -7,17 +7,10 @@ From Coq Require Import ZArith.
 From Base Require Import Tactics Bytes GoSem.
 From Gen Require Import Tables Translated.
 From Codec Require Import Wire Impl.
-From Topics Require Import Model.
-From Ackq Require Import Model.
+From Trans Require Export Common.
 Open Scope N_scope.
 
-(* a model byte string as the translation sees it *)
-Definition zb (l : bytes) : list Z := map Z.of_N l.
 
-(* topics.nextTopicLevel = Topics.Model.next_level: level, remainder, error *)
-Definition T_nextTopicLevel : Prop := forall t : bytes,
-  go_topics_nextTopicLevel (zb t) =
-  Some (match next_level t with Some (l, r) => (zb l, zb r, false) | None => ([], [], true) end).
 
 (* message.ValidTopic = Codec.Wire.valid_topic *)
 Definition T_ValidTopic : Prop := forall t : bytes,
@@ -59,28 +52,9 @@ Definition T_writeLPBytes : Prop := forall buf b : bytes,
   /\ (write_lp b = None <-> maxLPString < len b)
   /\ (forall w, write_lp b = Some w -> w = lp b).
 
-(* Ackqueue.index with mask = size - 1, size a power of two, is the position modulo the size (the ring
-   model Ackq.Model.index uses the same land) *)
-Definition T_index : Prop := forall k n : N,
-  go_sessions_index (Z.of_N (2 ^ k - 1)) (Z.of_N n) = Some (Z.of_N (n mod 2 ^ k))
-  /\ N.land n (2 ^ k - 1) = n mod 2 ^ k.
 
-Definition T_full_empty : Prop := forall count size : N,
-  go_sessions_full (Z.of_N count) (Z.of_N size) = Some (count =? size)
-  /\ go_sessions_empty (Z.of_N count) = Some (count =? 0).
 
-(* powerOfTwo64 (both copies): true exactly on the powers of two *)
-Definition T_powerOfTwo : Prop := forall n : N,
-  (go_sessions_powerOfTwo64 (Z.of_N n) = Some true <-> exists k, n = 2 ^ k)
-  /\ go_service_powerOfTwo64 (Z.of_N n) = go_sessions_powerOfTwo64 (Z.of_N n)
-  /\ go_sessions_powerOfTwo64 (Z.of_N n) <> None.
 
-(* roundUpPowerOfTwo64 (both copies): the least power of two that is not below n, for 0 < n <= 2^62 *)
-Definition T_roundUp : Prop := forall n : N,
-  0 < n -> n <= 2 ^ 62 ->
-  exists k, go_sessions_roundUpPowerOfTwo64 (Z.of_N n) = Some (Z.of_N (2 ^ k))
-            /\ go_service_roundUpPowerOfTwo64 (Z.of_N n) = Some (Z.of_N (2 ^ k))
-            /\ n <= 2 ^ k /\ 2 ^ k < 2 * n.
 
 (* message.nextPacketID = Codec.Impl.next_pid: the identifier handed out and the counter afterwards (a uint64: it
    wraps at 2^64), for every value of the counter; the loop needs at most two rounds *)
